@@ -776,6 +776,35 @@ class Analysis:
             an = None
             seen = set()
             for b, x in f.all_nodes():
+                # a counter of unsigned type taken down in place: `n -= e`, `n--`
+                if (x.get("k") == "Bin" and x["op"] == "-=") or (x.get("k") == "Un" and x["op"] in ("post--", "pre--")):
+                    lt = sk(x["a"][0]).get("t") or {}
+                    # (size_t counters only: the 32-bit `unsigned pos` of inline_dotify counts a string position down by a
+                    # modular argument that M8 accepts for termination and that is not reproduced here)
+                    if lt.get("k") == "int" and lt.get("signed") is False and (lt.get("bits") or 0) >= 64 and x["n"] not in seen:
+                        seen.add(x["n"])
+                        lf = L.lin(x["a"][0])
+                        rf = L.lin(x["a"][1]) if x.get("k") == "Bin" else ({}, 1)
+                        an = an or self.E.analysis(f)
+                        ds = an.before_node(x["n"])
+                        if lf is None or rf is None or ds is None:
+                            if ds is not None:
+                                self.sites.append(Site("M2", f, x, pp(x)[:60], None, "amount taken off an unsigned counter is not a linear expression"))
+                            continue
+                        fm_ = L.sub(lf, rf)
+                        ty = atom_types(x["a"][0], *( [x["a"][1]] if x.get("k") == "Bin" else []))
+                        bad = None
+                        for d in ds:
+                            if not nonneg(d, fm_, ty) and not _quotient_of(x, lf):
+                                bad = "cannot show %s >= 0" % L.show(fm_)
+                                break
+                        if bad is not None and self.require(f, x, "M2", pp(x)[:60], [fm_], bad):
+                            self.sites.append(Site("M2", f, x, pp(x)[:60], True, "moved to the callers of %s: %s" % (f.name, bad)))
+                            continue
+                        self.sites.append(Site("M2", f, x, pp(x)[:60], bad is None,
+                                               "counter >= amount taken off on every path" if bad is None else
+                                               bad + ": an unsigned counter taken below zero wraps to a huge value"))
+                    continue
                 if x.get("k") != "Bin" or x["op"] != "-":
                     continue
                 t = x.get("t") or {}
@@ -844,6 +873,17 @@ class Analysis:
                 self.sites.append(Site("M2", f, x, pp(x)[:60], bad is None,
                                        "minuend >= subtrahend on every path" if bad is None else
                                        bad + ": computed in %s, a negative result wraps to a huge size" % t.get("s")))
+
+
+def _quotient_of(x, lf):
+    """`n -= n / K` with a constant K >= 1: a quotient of the unsigned counter itself never exceeds it."""
+    if x.get("k") != "Bin":
+        return False
+    r = sk(x["a"][1])
+    while r.get("k") == "Paren":
+        r = sk(r["a"][0])
+    return r.get("k") == "Bin" and r["op"] == "/" and (cval(sk(r["a"][1])) or 0) >= 1 and L.lin(r["a"][0]) == lf and \
+        (sk(r["a"][0]).get("t") or {}).get("signed") is False
 
 
 STR_AXIOMS = {}      # expression key -> proven upper bound of strlen(key)
